@@ -57,7 +57,10 @@ DeclsOfNode(U, g, root, n) ==     \* eligible declarations of node n, with posit
 AllDecls(U, g, root) == UNION {DeclsOfNode(U, g, root, n) : n \in 1..Len(g.nodes)}
 Before(x, y) == x.n < y.n \/ (x.n = y.n /\ x.i < y.i)
 
-MavenViolations(U, root, g) ==
+\* softOnly: the universe contains no range requirement at all.  Nearest-wins is judged only then: with ranges
+\* the resolver restarts and keeps the requirements it met in abandoned attempts, which the final graph does
+\* not show (a soft 1.0 at the root may correctly yield 3.0 because an abandoned branch demanded (2.0,3.0]).
+MavenViolations(U, root, g, softOnly) ==
   LET decls == AllDecls(U, g, root) IN
      {<<"two-versions-of-one-artifact", i>> : i \in {i \in 1..Len(g.edges) : \E j \in 1..Len(g.edges) :
           KeyOfEdge(g, g.edges[i]) = KeyOfEdge(g, g.edges[j]) /\ g.nodes[g.edges[i].t].v # g.nodes[g.edges[j].t].v}}
@@ -76,7 +79,7 @@ MavenViolations(U, root, g) ==
           ~(\E e \in El(g.edges) : e.f = x.n /\ KeyOfEdge(g, e) = KeyOfDep(x.d) /\ e.r = x.r)
           /\ ~(\E er \in El(g.nodes[x.n].errs) : er.name = x.d.name)}}
   \cup {<<"unreachable-node", n>> : n \in {n \in 2..Len(g.nodes) : ~\E e \in El(g.edges) : e.t = n /\ e.f < n}}
-  \cup (IF \E x \in decls : ~IsSoft(x.r) THEN {}        \* nearest wins, judged when every declaration met is soft
+  \cup (IF ~softOnly \/ \E x \in decls : ~IsSoft(x.r) THEN {}        \* nearest wins
         ELSE {<<"nearest-declaration-does-not-win", x.n>> : x \in {x \in decls :
                  (\A y \in decls : KeyOfDep(y.d) = KeyOfDep(x.d) => (y = x \/ Before(x, y)))
                  /\ \E e \in El(g.edges) : KeyOfEdge(g, e) = KeyOfDep(x.d) /\ g.nodes[e.t].v # MVRq[x.r].v}})
